@@ -164,6 +164,40 @@ def in_pow(tier):
                 if (abs(x) ** n + n * (1 + abs(x)) ** (n - 1) / one + 1) * one < half: yield (l, f, a, n)
 
 
+# ---------------------------------------------------------------- products of lists with individually marked elements (C03 / C02)
+def call_prod_flags(l, f, vals, marks):
+    mpc, T = _fx(l, f); one = 1 << f
+    xs = [T(v // one, integral=True) if mk else T(v / one, integral=False) for v, mk in zip(vals, marks)]
+    z = mpc.prod(xs)
+    return _out(mpc, z), z.integral
+
+
+def ck_prod_flags(args, res, exc):
+    l, f, vals, marks = args; one = 1 << f
+    if exc: return f'unexpected {type(exc).__name__}: {exc}'
+    val, flag = res
+    exact = Fraction(1)
+    for v, mk in zip(vals, marks): exact *= (Fraction(v // one) if mk else Fraction(v, one))
+    err = abs(Fraction(val) - exact) * one
+    n = len(vals)
+    if err > 4 * n * (1 + abs(exact)): return f'prod = {val}, exact {float(exact)}: off by {float(err):.1f} units'
+    if flag is True and Fraction(val).denominator != 1: return f'result marked integral but equals {val}'
+    return True
+
+
+def in_prod_flags(tier):
+    import itertools, random
+    rnd = random.Random(5)
+    l, f = 16, 6; one = 1 << f
+    for n in (2, 3, 4, 5, 6, 7) if tier == 'quick' else range(2, 10):
+        pats = list(itertools.product((True, False), repeat=n))
+        if len(pats) > 64 and tier == 'quick': pats = rnd.sample(pats, 64)
+        for marks in pats:
+            for _ in range(1 if tier == 'quick' else 3):
+                vals = tuple((rnd.choice([1, 2, 3, -1, -2]) * one) if mk else rnd.choice([19, 45, 70, -26, 90, 38]) for mk in marks)      # fractions 0.3, 0.7, 1.1, -0.4, 1.4, 0.6
+                yield (l, f, vals, marks)
+
+
 # ---------------------------------------------------------------- secure gcd family (C01), all pairs of small integers
 def call_gcd(L, a, b):
     mpc = _mpc(); S = mpc.SecInt(2 * L + 2)
@@ -279,6 +313,8 @@ def in_conv_ff(tier):
 
 
 NATIVE = {n.name: n for n in [
+    Native('fxp_prod_marks', 'mpyc.runtime.Runtime.prod (fixed point, per-element integral marks)', call_prod_flags, ck_prod_flags, in_prod_flags,
+           'SecFxp(16,6), lists of 2..7 (thorough 9) elements, every pattern of integral marks (quick: 64 sampled patterns for n = 7), whole and fractional values'),
     Native('int_inverse', 'mpyc.runtime.Runtime.inverse/gcdext', call_inv, ck_inv, in_inv, 'all coprime pairs 1 <= a < b < 40 (thorough 128)'),
     Native('fxp_div_f8', 'mpyc.runtime.Runtime.div/_rec/_norm', call_div, ck_div, in_div_f8,
            'SecFxp(16,8), SecFxp(24,12) (thorough + SecFxp(32,16)): 36 divisors (1..23 units, around 1/2, 1, 3, -5, max/3) x 17 (51) dividends, quotient in range'),
@@ -296,7 +332,7 @@ NATIVE = {n.name: n for n in [
     Native('field_conversions_gf2_signed', 'mpyc.runtime.Runtime.convert/_convert[signed-GF(2)]', call_conv, ck_conv, in_conv_gf2_signed, 'signed GF(2), both elements'),
 ]}
 for _n in NATIVE.values(): _n.module = 'contracts.runtime_native'
-BY_PROP = {'C02': ['fxp_div', 'fxp_div_f8', 'fxp_div_bands', 'fxp_div_wide', 'fxp_reciprocal', 'fxp_sincos', 'fxp_pow'], 'C01': ['int_gcd_family', 'int_inverse'], 'C06': ['field_conversions', 'field_conversions_field_to_field', 'field_conversions_gf2_signed']}
+BY_PROP = {'C03': ['fxp_prod_marks'], 'C02': ['fxp_div', 'fxp_div_f8', 'fxp_div_bands', 'fxp_div_wide', 'fxp_reciprocal', 'fxp_sincos', 'fxp_pow'], 'C01': ['int_gcd_family', 'int_inverse'], 'C06': ['field_conversions', 'field_conversions_field_to_field', 'field_conversions_gf2_signed']}
 
 
 def tasks(tier, prop):
